@@ -387,10 +387,8 @@ class FileStoreRequestTlv(FileStoreRequestBase, AbstractTlvBase):
 
     @classmethod
     def unpack(cls, data: bytes) -> FileStoreRequestTlv:
-        cls._check_raw_tlv_field(data[0], FileStoreRequestTlv.TLV_TYPE)
-        filestore_req = cls.__empty()
-        cls._set_fields(filestore_req, data[2:])
-        return filestore_req
+        # The generic TLV parser checks the length octet, so only the declared value is parsed.
+        return cls.from_tlv(CfdpTlv.unpack(data))
 
     @classmethod
     def from_tlv(cls, cfdp_tlv: CfdpTlv) -> FileStoreRequestTlv:
@@ -402,9 +400,14 @@ class FileStoreRequestTlv(FileStoreRequestBase, AbstractTlvBase):
 
     @classmethod
     def _set_fields(cls, instance: FileStoreRequestTlv, raw_data: bytes):
-        action_code, first_name, _, _, second_name = cls._common_unpacker(
+        action_code, first_name, _, idx, second_name = cls._common_unpacker(
             raw_bytes=raw_data
         )
+        if idx != len(raw_data):
+            raise ValueError(
+                f"filestore request TLV value length {len(raw_data)} does not match its "
+                f"fields with length {idx}"
+            )
         instance.action_code = action_code
         instance.first_file_name = first_name
         if second_name is not None:
@@ -469,10 +472,8 @@ class FileStoreResponseTlv(FileStoreRequestBase, AbstractTlvBase):
 
     @classmethod
     def unpack(cls, data: bytes) -> FileStoreResponseTlv:
-        cls._check_raw_tlv_field(data[0], FileStoreResponseTlv.TLV_TYPE)
-        filestore_reply = cls.__empty()
-        cls._set_fields(filestore_reply, data[2:])
-        return filestore_reply
+        # The generic TLV parser checks the length octet, so only the declared value is parsed.
+        return cls.from_tlv(CfdpTlv.unpack(data))
 
     @classmethod
     def from_tlv(cls, cfdp_tlv: CfdpTlv) -> FileStoreResponseTlv:
@@ -502,6 +503,11 @@ class FileStoreResponseTlv(FileStoreRequestBase, AbstractTlvBase):
         if second_name is not None:
             instance.second_file_name = second_name
         instance.filestore_msg = CfdpLv.unpack(data[idx:])
+        if idx + instance.filestore_msg.packet_len != len(data):
+            raise ValueError(
+                f"filestore response TLV value length {len(data)} does not match its "
+                f"fields with length {idx + instance.filestore_msg.packet_len}"
+            )
 
 
 class EntityIdTlv(AbstractTlvBase):
